@@ -6,6 +6,7 @@ import (
 	"bytes"
 	"context"
 	"errors"
+	"sync"
 	"time"
 
 	ipfslog "berty.tech/go-ipfs-log"
@@ -456,6 +457,10 @@ type memDag struct {
 	onAdd    func(d *memDag, nd format.Node)
 	journal  []string // identifiers in write order
 	removed  []string // identifiers removed through Remove
+	// slow: Add takes time: it is entered (and may be refused) first and stores the block in a second step, so
+	// that other writers can run while a write is in flight
+	slow bool
+	mu   sync.Mutex
 }
 
 func (api *memAPI) Dag() coreiface.APIDagService {
@@ -466,6 +471,23 @@ func (api *memAPI) Dag() coreiface.APIDagService {
 }
 
 func (d *memDag) Add(_ context.Context, nd format.Node) (err error) {
+	if d.slow {
+		d.mu.Lock()
+		d.adds++
+		fail := d.failAdds[d.adds]
+		d.mu.Unlock()
+		if fail {
+			return errors.New("blockstore: write failed")
+		}
+		d.mu.Lock() // ... the write is in flight ...
+		k := nd.Cid().String()
+		if _, dup := d.nodes[k]; !dup {
+			d.journal = append(d.journal, k)
+		}
+		d.nodes[k] = nd
+		d.mu.Unlock()
+		return nil
+	}
 	vx.Atomic(func() {
 		d.adds++
 		if d.failAdds[d.adds] {
